@@ -623,8 +623,178 @@ LEVEL_NOTE = ("Trusted: Coq kernel (vm_compute, no native_compute), no axioms; h
               "installed through the keeper's InitGenesis) and python glue; SDK bank/distribution/params keepers modelled only as far as the mint denom's balances, supply, "
               "offset and community pool entry; sdk.Int/LegacyDec overflow and gas not modelled.")
 
+# ---------------------------------------------------------------------------------------------
+# development aid: a python re-implementation of the mint epoch with seeded faults, to unit-check that the oracle flags
+# the kind of source changes the check is meant to catch (run: python3 -m props.c18 mutants [n]).  Not used by ./check.
+# ---------------------------------------------------------------------------------------------
+def _rhe(n, d):
+    q, r = divmod(n, d)
+    if 2 * r > d or (2 * r == d and q % 2 == 1):
+        q += 1
+    return q
+
+
+MUTANTS = ["none", "reduce_gt", "round_minted", "round_share", "community_truncated", "no_burn", "offset_sign", "no_start_marker",
+           "any_identifier", "start_lte", "mint_before_reduction", "vest_lte", "ratio_gte", "marker_every_epoch", "minter_not_saved",
+           "dev_from_mint", "pool_share_to_fee", "offset_full_dev", "empty_to_first_receiver", "hook_skipped", "hook_all_to_community",
+           "hook_all_to_gauges"]
+
+
+def sim(c, init, mut):
+    """observations (steps) a keeper with the seeded fault [mut] would produce from the observed initial vector"""
+    na = c["na"]
+    st = {"mint": init[0], "fee": init[1], "pool": init[2], "inc": init[3], "distr": init[4], "cpool": init[5], "vest": init[6],
+          "recv": list(init[7:7 + na]), "supply": init[7 + na], "offset": init[8 + na], "prov": init[9 + na], "last": init[10 + na]}
+    props = [int(x) for x in c["props"]]
+    factor, period, start = int(c["factor"]), c["period"], c["start"]
+    total = sum(int(d["w"]) for d in c["distr"])
+
+    def vec(s):
+        return [s["mint"], s["fee"], s["pool"], s["inc"], s["distr"], s["cpool"], s["vest"]] + s["recv"] + [s["supply"], s["offset"], s["prov"], s["last"]]
+
+    def share(a, r, mode="trunc"):
+        if mut == "ratio_gte" and r >= P:
+            raise ValueError("ratio")
+        return _rhe(a * r, P) if mode == "round" else a * r // P
+
+    steps = []
+    for cl in c["calls"]:
+        s = json.loads(json.dumps(st))
+        try:
+            e = cl["e"]
+            if cl["id"] != 0 and mut != "any_identifier":
+                raise StopIteration
+            if e < start or (mut == "start_lte" and e == start):
+                raise StopIteration
+            if e == start or mut == "marker_every_epoch":
+                if mut != "no_start_marker":
+                    s["last"] = e
+            old_prov = s["prov"]
+            due = e > period + s["last"] if mut == "reduce_gt" else e >= period + s["last"]
+            if due:
+                s["prov"] = _rhe(s["prov"] * factor, P)
+                s["last"] = e
+            base = old_prov if mut == "mint_before_reduction" else s["prov"]
+            if mut == "minter_not_saved" and due:
+                s["prov"] = old_prov
+            minted = _rhe(base, P) if mut == "round_minted" else base // P
+            s["mint"] += minted
+            s["supply"] += minted
+            mode = "round" if mut == "round_share" else "trunc"
+            sa = share(minted, props[0], mode)
+            pa = share(minted, props[1], mode)
+            if mut == "pool_share_to_fee":
+                s["fee"] += sa + pa
+                s["mint"] -= sa + pa
+            else:
+                s["fee"] += sa
+                s["pool"] += pa
+                s["mint"] -= sa + pa
+            dev = share(minted, props[2], mode)
+            vest_before = s["vest"]
+            if vest_before < dev or (mut == "vest_lte" and vest_before <= dev):
+                raise ValueError("vesting")
+            if mut != "no_burn":
+                s["mint"] -= dev
+                s["supply"] -= dev
+            src = "mint" if mut == "dev_from_mint" else "vest"
+            if not c["recv"]:
+                s[src] -= dev
+                s["distr"] += dev
+                s["cpool"] += dev
+            for rc in c["recv"]:
+                por = share(dev, int(rc["w"]))
+                if rc["a"] == -2:
+                    raise ValueError("blocked")
+                if s[src] < por:
+                    raise ValueError("funds")
+                s[src] -= por
+                if rc["a"] == -1 and not (mut == "empty_to_first_receiver" and na > 0):
+                    s["distr"] += por
+                    s["cpool"] += por
+                elif rc["a"] == -1:
+                    s["recv"][0] += por
+                else:
+                    s["recv"][rc["a"]] += por
+            if mut == "offset_sign":
+                s["offset"] -= vest_before - s["vest"]
+            elif mut == "offset_full_dev":
+                s["offset"] += dev
+            else:
+                s["offset"] += vest_before - s["vest"]
+            comm = share(minted, props[3], mode) if mut == "community_truncated" else minted - sa - pa - dev
+            if comm < 0 or s["mint"] < comm:
+                raise ValueError("funds")
+            s["mint"] -= comm
+            s["distr"] += comm
+            s["cpool"] += comm
+            # hook
+            asset = s["pool"]
+            if mut == "hook_skipped":
+                asset = 0
+            if mut == "hook_all_to_gauges" and asset != 0:
+                s["pool"] -= asset
+                s["inc"] += asset
+                asset = 0
+            if asset != 0:
+                if total == 0 or mut == "hook_all_to_community":
+                    s["pool"] -= asset
+                    s["distr"] += asset
+                    s["cpool"] += asset
+                else:
+                    for d in c["distr"]:
+                        q = _rhe((int(d["w"]) * P * P) // total, P)
+                        amt = asset * q // P
+                        if amt <= 0:
+                            continue
+                        if s["pool"] < amt:
+                            raise KeyError("hook")
+                        s["pool"] -= amt
+                        if d["g"] == 0:
+                            s["distr"] += amt
+                            s["cpool"] += amt
+                        else:
+                            s["inc"] += amt
+            st = s
+            steps.append([0] + vec(st))
+        except StopIteration:
+            steps.append([0] + vec(st))
+        except ValueError:
+            steps.append([1] + vec(st))
+        except KeyError:
+            steps.append([2] + vec(st))
+    return steps
+
+
+def mutant_selftest(n=300, seed=1):
+    r = Rng(seed)
+    cases = [gen_case(r.fork(i), "quick") for i in range(n)]
+    obs = run_impl(cases)
+    findings = common.load_findings(PROP)
+    data = [(c,) + parse_obs(c, o) for c, o in zip(cases, obs) if not o.get("err")]
+    res = {}
+    for mut in MUTANTS:
+        differs = flagged = 0
+        kinds = {}
+        for c, init, steps in data:
+            sm = sim(c, init, mut)
+            if sm != steps:
+                differs += 1
+                real = [v for v in oracle(c, init, sm) if not common.match_finding(findings, v.get("rec", {}))]
+                if real:
+                    flagged += 1
+                    k = real[0]["rec"].get("kind")
+                    kinds[k] = kinds.get(k, 0) + 1
+        res[mut] = (differs, flagged, kinds)
+        print("%-26s behaviour differs in %3d cases, oracle flags %3d  %s" % (mut, differs, flagged, kinds))
+    return res
+
+
 if __name__ == "__main__":
     import sys
+    if len(sys.argv) > 1 and sys.argv[1] == "mutants":
+        mutant_selftest(int(sys.argv[2]) if len(sys.argv) > 2 else 300)
+        sys.exit(0)
     o = Outcome()
     r = Rng(1)
     cs = [gen_case(r.fork(i), "quick") for i in range(int(sys.argv[1]) if len(sys.argv) > 1 else 20)]
